@@ -64,6 +64,10 @@ class Namer:
                 iskw = False
             if draw(st.integers(0, 9)) < 3:
                 n = n + draw(st.sampled_from(["1", "_2", "x", "_v", "0", "_"])) .rstrip("_")
+            if draw(st.integers(0, 99)) < self.cfg.get("p_underscore_run", 6):
+                # simple_id = letter { letter | digit | '_' }: runs of underscores are legal, and the generator and the run-time
+                # library each have their own function that derives the registry spelling of a name from them
+                n = n + draw(st.sampled_from(["__x", "__2", "___v", "__a_b", "_1__q"]))
             if n in EXPRESS_RESERVED or n in used:
                 continue
             used.add(n)
